@@ -782,7 +782,9 @@ where
             }
             Instruction::MStructSet(n) => {
                 let n: usize = n.into();
-                let mut field_name_value_pairs = Vec::with_capacity(n);
+                // `n` comes straight from the bytecode: never reserve more than
+                // the stack can supply.
+                let mut field_name_value_pairs = Vec::with_capacity(n.min(self.stack.len()));
 
                 for _ in 0..n {
                     let field_val = self.ipop_value()?;
